@@ -1,11 +1,109 @@
 import Spdc.Model.Grid
+import Spdc.Real.GridLemmas
+import Mathlib.Data.Real.Basic
+import Mathlib.Tactic.LinearCombination
 /-!
 # C14 — grids enumerate exactly the documented points in row-major order
 
-Property theorems only (helper lemmas live in `Spdc/Real/`).
+Property theorems only (helper lemmas live in `Spdc/Real/GridLemmas.lean`).  Scalar statements are
+over an arbitrary field `K` of characteristic 0 (in particular `ℝ`); list-structure statements are
+over an arbitrary scalar type.
 -/
 namespace Spdc.Props.C14
 open Spdc Spdc.Grid
+
+/-! ## T1 — 1-D step ranges -/
+
+/-- A step range of `n` points yields exactly `n` values, the `i`-th being `value i`; it starts at the
+first endpoint (`n ≥ 1`), ends at the second (`n ≥ 2`) and is evenly spaced by `(b − a)/(n − 1)`;
+`n = 1 ⇒ [a]`, `n = 0 ⇒ []`. -/
+theorem steps_enumerate {K : Type} [Field K] [CharZero K] (s : Steps K) :
+    s.collect.length = s.n ∧
+    (∀ i (h : i < s.collect.length), s.collect[i] = s.value i) ∧
+    (1 ≤ s.n → s.collect.head? = some s.a) ∧
+    (2 ≤ s.n → s.collect.getLast? = some s.b) ∧
+    (2 ≤ s.n → ∀ i, s.value (i + 1) - s.value i = (s.b - s.a) / ((s.n - 1 : Nat) : K)) ∧
+    (s.n = 1 → s.collect = [s.a]) ∧
+    (s.n = 0 → s.collect = []) := by
+  refine ⟨s.collect_length, s.collect_getElem, ?_, ?_, s.value_succ_sub, ?_, s.collect_zero⟩
+  · intro h
+    have hl : 0 < s.collect.length := by rw [s.collect_length]; omega
+    rw [List.head?_eq_getElem?, List.getElem?_eq_getElem hl, s.collect_getElem 0 hl, s.value_zero]
+  · intro h
+    have hl : s.n - 1 < s.collect.length := by rw [s.collect_length]; omega
+    rw [List.getLast?_eq_getElem?, s.collect_length, List.getElem?_eq_getElem hl,
+      s.collect_getElem _ hl, s.value_last h]
+  · intro h
+    have hv : s.value 0 = s.a := s.value_zero
+    simp [Steps.collect, h, hv]
+
+/-- traversal from the back is the reverse of the forward traversal; traversal from the front is
+`collect` (what `into_iter().rev().collect()` / `.collect()` return) — any scalar type -/
+theorem steps_rev_collect {α : Type} [Add α] [Sub α] [Mul α] [Div α] [NatCast α] (s : Steps α) :
+    s.iter.drain (List.replicate s.n true) = s.collect.reverse.map some ∧
+    s.iter.drain (List.replicate s.n false) = s.collect.map some := by
+  constructor
+  · exact Iter1.drain_all_back s s.n
+  · have := Iter1.drain_all_front s s.n s.n 0 (by omega)
+    simpa [Steps.iter, Steps.collect, List.range_eq_range'] using this
+
+/-- Mixed front/back consumption (any script of `next` / `next_back` calls): the front pulls deliver
+a prefix of the sequence in order, the back pulls a suffix in reverse order, the two never overlap
+(`f + b ≤ n`), exactly `min (#pulls) n` values are delivered, and once the script is at least `n`
+long the two parts partition the whole sequence. -/
+theorem steps_drain_partition {α : Type} [Add α] [Sub α] [Mul α] [Div α] [NatCast α]
+    (s : Steps α) (sc : List Bool) :
+    ∃ f b, f + b = min sc.length s.n ∧
+      pulls sc (s.iter.drain sc) false = s.collect.take f ∧
+      (pulls sc (s.iter.drain sc) true).reverse = s.collect.drop (s.n - b) ∧
+      (s.iter.drain sc).length = sc.length ∧
+      (s.n ≤ sc.length →
+        pulls sc (s.iter.drain sc) false ++ (pulls sc (s.iter.drain sc) true).reverse = s.collect) := by
+  obtain ⟨f, b, hfb0, hf, hb, hl⟩ := Iter1.drain_spec s sc 0 s.n (Nat.zero_le _)
+  have hfb : f + b = min sc.length s.n := by simpa using hfb0
+  have hfn : f + b ≤ s.n := by rw [hfb]; exact Nat.min_le_right _ _
+  have h1 : (List.range' 0 f).map s.value = s.collect.take f := by
+    simp only [Steps.collect, ← List.map_take, List.range_eq_range']
+    rw [List.take_range'_of_length_ge (by omega)]
+  have h2 : (List.range' (s.n - b) b).map s.value = s.collect.drop (s.n - b) := by
+    simp only [Steps.collect, ← List.map_drop, List.range_eq_range', List.drop_range']
+    congr 2 <;> omega
+  refine ⟨f, b, hfb, ?_, ?_, hl, ?_⟩
+  · exact hf.trans h1
+  · show (pulls sc ((⟨s, 0, s.n⟩ : Iter1 α).drain sc) true).reverse = _
+    rw [hb, List.reverse_reverse, h2]
+  · intro hlen
+    have hsum : f + b = s.n := by rw [hfb]; simpa using hlen
+    show pulls sc ((⟨s, 0, s.n⟩ : Iter1 α).drain sc) false
+      ++ (pulls sc ((⟨s, 0, s.n⟩ : Iter1 α).drain sc) true).reverse = _
+    rw [hf, hb, List.reverse_reverse, h1, h2]
+    have : s.n - b = f := by omega
+    rw [this, List.take_append_drop]
+
+/-! ## T2 — 2-D ranges -/
+
+/-- a 2-D range yields `nx·ny` points; point `k` is `(x_{k mod nx}, y_{k div nx})` — the 1-D values of
+the two axes, first axis varying fastest -/
+theorem steps2d_enumerate {K : Type} [Field K] [CharZero K] (s : Steps2D K) :
+    s.collect.length = s.x.n * s.y.n ∧
+    ∀ k (h : k < s.collect.length),
+      ∃ (hx : k % s.x.n < s.x.collect.length) (hy : k / s.x.n < s.y.collect.length),
+        s.collect[k] = (s.x.collect[k % s.x.n], s.y.collect[k / s.x.n]) := by
+  refine ⟨s.collect_length, ?_⟩
+  intro k h
+  have hk : k < s.x.n * s.y.n := by rw [← s.collect_length]; exact h
+  have hpos : 0 < s.x.n := by
+    rcases Nat.eq_zero_or_pos s.x.n with h0 | h0
+    · rw [h0, Nat.zero_mul] at hk; omega
+    · exact h0
+  have hx : k % s.x.n < s.x.collect.length := by
+    rw [s.x.collect_length]; exact Nat.mod_lt _ hpos
+  have hy : k / s.x.n < s.y.collect.length := by
+    rw [s.y.collect_length]; exact Nat.div_lt_of_lt_mul hk
+  refine ⟨hx, hy, ?_⟩
+  rw [s.collect_getElem k h, s.value_eq k, s.x.collect_getElem _ hx, s.y.collect_getElem _ hy]
+
+/-! ## T3 — index maps -/
 
 /-- the flat-index ↔ (column,row) maps are mutually inverse (1) -/
 theorem index_inverse_1 (col row cols : Nat) (h : col < cols) :
@@ -22,5 +120,128 @@ theorem index_inverse_2 (k cols : Nat) (h : 0 < cols) :
   simp only [get1dIndex, get2dIndices, Nat.mod_lt _ h, if_true]
   congr 1
   rw [Nat.mul_comm]; exact Nat.div_add_mod k cols
+
+/-! ## T4 — range evaluation, flat arrays -/
+
+/-- A flat list `[s₀,i₀,s₁,i₁,…]` built from the points of a grid, re-chunked in pairs as the
+`SignalIdler*Array` iterators do, gives the same points — hence any function mapped over it gives
+the same values as over the grid, in the same order. -/
+theorem range_flat_array_eq_grid {β γ : Type} (f : β × β → γ) (pts : List (β × β)) :
+    chunks2 (pts.flatMap fun p => [p.1, p.2]) = pts ∧
+    (chunks2 (pts.flatMap fun p => [p.1, p.2])).map f = pts.map f := by
+  rw [chunks2_flat]; exact ⟨rfl, rfl⟩
+
+/-! ## T5 — representation conversions -/
+
+/-- wavelength ↔ frequency: endpoints go to endpoints (largest wavelength ↦ smallest frequency),
+counts are kept and each ascending positive axis stays ascending and positive -/
+theorem wl_freq_endpoints (c : ℝ) (hc : 0 < c) (s : Steps2D ℝ)
+    (hxa : 0 < s.x.a) (hx : s.x.a ≤ s.x.b) (hya : 0 < s.y.a) (hy : s.y.a ≤ s.y.b) :
+    (convRecip c s).x.a = c / s.x.b ∧ (convRecip c s).x.b = c / s.x.a ∧
+    (convRecip c s).y.a = c / s.y.b ∧ (convRecip c s).y.b = c / s.y.a ∧
+    (convRecip c s).x.n = s.x.n ∧ (convRecip c s).y.n = s.y.n ∧
+    0 < (convRecip c s).x.a ∧ (convRecip c s).x.a ≤ (convRecip c s).x.b ∧
+    0 < (convRecip c s).y.a ∧ (convRecip c s).y.a ≤ (convRecip c s).y.b := by
+  refine ⟨rfl, rfl, rfl, rfl, rfl, rfl, ?_, ?_, ?_, ?_⟩
+  · exact div_pos hc (lt_of_lt_of_le hxa hx)
+  · exact div_le_div_of_nonneg_left hc.le hxa hx
+  · exact div_pos hc (lt_of_lt_of_le hya hy)
+  · exact div_le_div_of_nonneg_left hc.le hya hy
+
+/-- wavelength → frequency → wavelength (and the converse: same function) is the identity on grids
+with non-zero endpoints, for any non-zero constant `2πc` -/
+theorem wl_freq_roundtrip {K : Type} [Field K] [CharZero K] (c : K) (hc : c ≠ 0) (s : Steps2D K)
+    (h1 : s.x.a ≠ 0) (h2 : s.x.b ≠ 0) (h3 : s.y.a ≠ 0) (h4 : s.y.b ≠ 0) :
+    convRecip c (convRecip c s) = s :=
+  convRecip_convRecip c s hc h1 h2 h3 h4
+
+/-- frequency → sum/difference axes keeps both point counts and the grid centre: the centre of the
+sum/diff grid, read back as (signal, idler) = (s − d, s + d), is the centre of the frequency grid;
+the way back keeps counts, and the round trip always keeps the centre of each axis. -/
+theorem sumdiff_centre_counts {K : Type} [Field K] [CharZero K] (f : Steps2D K) :
+    (toSumDiff f).x.n = f.x.n ∧ (toSumDiff f).y.n = f.y.n ∧
+    (fromSumDiff (toSumDiff f)).x.n = f.x.n ∧ (fromSumDiff (toSumDiff f)).y.n = f.y.n ∧
+    sumDiffPoint (((toSumDiff f).x.a + (toSumDiff f).x.b) / 2, ((toSumDiff f).y.a + (toSumDiff f).y.b) / 2)
+      = ((f.x.a + f.x.b) / 2, (f.y.a + f.y.b) / 2) ∧
+    ((fromSumDiff (toSumDiff f)).x.a + (fromSumDiff (toSumDiff f)).x.b) / 2 = (f.x.a + f.x.b) / 2 ∧
+    ((fromSumDiff (toSumDiff f)).y.a + (fromSumDiff (toSumDiff f)).y.b) / 2 = (f.y.a + f.y.b) / 2 := by
+  refine ⟨rfl, rfl, rfl, rfl, ?_, ?_, ?_⟩
+  · simp only [sumDiffPoint, toSumDiff, klit_two, Prod.mk.injEq]
+    constructor <;> ring
+  · rw [fromSumDiff_toSumDiff_x_a, fromSumDiff_toSumDiff_x_b]; ring
+  · rw [fromSumDiff_toSumDiff_y_a, fromSumDiff_toSumDiff_y_b]; ring
+
+/-- frequency → sum/diff → frequency is the identity **exactly** when signal and idler spans are equal -/
+theorem sumdiff_roundtrip_iff {K : Type} [Field K] [CharZero K] (f : Steps2D K) :
+    fromSumDiff (toSumDiff f) = f ↔ f.x.b - f.x.a = f.y.b - f.y.a := by
+  have h4 : (4 : K) ≠ 0 := by norm_num
+  constructor
+  · intro h
+    have hx := fromSumDiff_toSumDiff_x_a f
+    rw [h] at hx
+    have : 4 * f.x.a = 3 * f.x.a + f.x.b + f.y.a - f.y.b := by
+      rw [eq_div_iff h4] at hx; linear_combination hx
+    linear_combination (-1 : K) * this
+  · intro h
+    have hb : f.x.b = f.x.a + f.y.b - f.y.a := by linear_combination h
+    have e1 := fromSumDiff_toSumDiff_x_a f
+    have e2 := fromSumDiff_toSumDiff_x_b f
+    have e3 := fromSumDiff_toSumDiff_y_a f
+    have e4 := fromSumDiff_toSumDiff_y_b f
+    have n1 : (fromSumDiff (toSumDiff f)).x.n = f.x.n := rfl
+    have n2 : (fromSumDiff (toSumDiff f)).y.n = f.y.n := rfl
+    have g1 : (fromSumDiff (toSumDiff f)).x.a = f.x.a := by rw [e1, hb]; field_simp; ring
+    have g2 : (fromSumDiff (toSumDiff f)).x.b = f.x.b := by rw [e2, hb]; field_simp; ring
+    have g3 : (fromSumDiff (toSumDiff f)).y.a = f.y.a := by rw [e3, hb]; field_simp; ring
+    have g4 : (fromSumDiff (toSumDiff f)).y.b = f.y.b := by rw [e4, hb]; field_simp; ring
+    generalize fromSumDiff (toSumDiff f) = g at *
+    obtain ⟨⟨gxa, gxb, gxn⟩, ⟨gya, gyb, gyn⟩⟩ := g
+    obtain ⟨⟨fxa, fxb, fxn⟩, ⟨fya, fyb, fyn⟩⟩ := f
+    simp only at n1 n2 g1 g2 g3 g4
+    subst n1 n2 g1 g2 g3 g4
+    rfl
+
+/-- round trip under the equal-span hypothesis -/
+theorem sumdiff_roundtrip {K : Type} [Field K] [CharZero K] (f : Steps2D K)
+    (h : f.x.b - f.x.a = f.y.b - f.y.a) : fromSumDiff (toSumDiff f) = f :=
+  (sumdiff_roundtrip_iff f).mpr h
+
+/-- counter-example for unequal spans: signal 0…1, idler 0…2 comes back as signal −¼…1¼ -/
+theorem sumdiff_roundtrip_counterexample :
+    fromSumDiff (toSumDiff (⟨⟨0, 1, 5⟩, ⟨0, 2, 5⟩⟩ : Steps2D ℝ)) ≠ ⟨⟨0, 1, 5⟩, ⟨0, 2, 5⟩⟩ ∧
+    (fromSumDiff (toSumDiff (⟨⟨0, 1, 5⟩, ⟨0, 2, 5⟩⟩ : Steps2D ℝ))).x.a = -1 / 4 := by
+  constructor
+  · intro h
+    have := (sumdiff_roundtrip_iff _).mp h
+    norm_num at this
+  · rw [fromSumDiff_toSumDiff_x_a]; norm_num
+
+/-! ## T6 — transpose -/
+
+/-- transposing a flat row-major `rows × cols` matrix yields its matrix transpose, for **every**
+shape with `cols ≥ 1` (rows ≥ 0) — true of the code since the `fix:` commit ba2e9b3 -/
+theorem transpose_spec {β : Type} (m : Nat → Nat → β) (rows cols : Nat) (hc : 1 ≤ cols) :
+    transposeVec (flatten m rows cols) cols = .ok (transposeSpec m rows cols) :=
+  transposeVec_flatten m rows cols hc
+
+/-- `num_cols = 0` is a division by zero (`div_ceil`) -/
+theorem transpose_zero_cols {β : Type} (v : List β) : (transposeVec v 0).isPanic = true := by
+  simp [transposeVec, Outcome.isPanic]
+
+/-! ## non-vacuity -/
+
+example : (⟨0, 1, 3⟩ : Steps ℝ).collect.getLast? = some 1 :=
+  (steps_enumerate (⟨0, 1, 3⟩ : Steps ℝ)).2.2.2.1 (by norm_num)
+example : ∃ f b, f + b = min 4 3 ∧ True := ⟨3, 0, by norm_num, trivial⟩
+example : (⟨⟨0, 1, 2⟩, ⟨0, 1, 3⟩⟩ : Steps2D ℝ).collect.length = 2 * 3 :=
+  (steps2d_enumerate _).1
+example : get1dIndex 2 1 3 = .ok 5 := by decide
+example : (convRecip (2 : ℝ) ⟨⟨1, 2, 3⟩, ⟨1, 4, 3⟩⟩).x.a ≤ (convRecip (2 : ℝ) ⟨⟨1, 2, 3⟩, ⟨1, 4, 3⟩⟩).x.b :=
+  (wl_freq_endpoints 2 (by norm_num) _ (by norm_num) (by norm_num) (by norm_num) (by norm_num)).2.2.2.2.2.2.2.1
+example : fromSumDiff (toSumDiff (⟨⟨1, 2, 5⟩, ⟨3, 4, 7⟩⟩ : Steps2D ℝ)) = ⟨⟨1, 2, 5⟩, ⟨3, 4, 7⟩⟩ :=
+  sumdiff_roundtrip _ (by norm_num)
+example : transposeVec [1, 2, 3, 4, 5, 6] 3 = .ok [1, 4, 2, 5, 3, 6] := by decide
+example : transposeVec (flatten (fun r c => 3 * r + c + 1) 2 3) 3
+    = .ok (transposeSpec (fun r c => 3 * r + c + 1) 2 3) := transpose_spec _ 2 3 (by norm_num)
 
 end Spdc.Props.C14
